@@ -408,7 +408,7 @@ OnRet(m00, e) ==
       mO == Flag(mN, clean0 /\ undead # {}, "C03", "allocation of a dropped value not released when the call returned: " \o ToString(undead))
       orphanMeta == {x \in Ids(mM3) : mM3.objs[x].mlive /\ mM3.objs[x].bs = "freed" /\ WCnt(mM3, x) = 0}
       mP == Flag(mO, clean0 /\ orphanMeta # {}, "C09", "side record not released although allocation and all Weak pointers are gone: " \o ToString(orphanMeta))
-      quiet == clean0 /\ op = "collect" /\ fr.ncb = 0
+      quiet == clean0 /\ op = "collect" /\ fr.ncb = 0 /\ Get(e, "bf", 0) # -1
       mQ == Flag(mP, quiet /\ Unjustified(mM3) # {}, "C02", "unreachable objects survived a quiescent collect_cycles(): " \o ToString(IF quiet THEN Unjustified(mM3) ELSE {}))
       \* ---- taint after a caught panic: everything unreachable now may leak
       mR == IF lim = 0 /\ pan
@@ -528,6 +528,8 @@ Mon0(m, e) ==
     [] e.e = "cbx" -> OnCbx(m, e)
     [] e.e = "alloc" -> OnAlloc(m, e)
     [] e.e = "dealloc" -> OnDealloc(m, e)
+    [] e.e = "harness-thread-panicked" -> Flag(m, TRUE, "C19", "a thread panicked while running or tearing down its thread-locals")
+    [] e.e = "harness-invalid-step" -> Flag(m, TRUE, "HARNESS", "a scripted thread step was not executable")
     [] OTHER -> m
 
 Mon(m, e) ==
